@@ -14,12 +14,12 @@ CLAIMS = {
                 ref='DESIGN.md §5 C01, §11'),
     'C07': dict(cat='proof',
                 text='The final-newline and charset/BOM clauses are the postcondition of the tail of CssData::into_buffer, verified by Verus for every byte vector (unbounded) on text extracted from /repo each run (Kani twin on buffers <= 4 bytes gives counterexamples); the brace bookkeeping of CssBuf::start_block/end_block/add_one/add_str/pop_nl/opt_nl is verified by Verus for every buffer and indentation, with the lemma layer L-braces (start_block +1, end_block -1 on the brace balance; indent == 2 * balance is invariant) over those contracts; do_indent/get_indent/long_indent by Kani contracts and Verus.',
-                note='Item writers (what bytes reach the buffer), braces inside values/strings, "no line break in compressed output" (Property::write etc.) are not covered. Verus type stubs, vstd Vec/str specs and one assumed byte-string literal are trusted and listed.',
+                note='Item writers other than Property::write (what bytes reach the buffer) and braces inside values/strings are not covered; "no line break in compressed output" is checked for Property::write only (complete body extracted unchanged, real CssBuf, value rendering replaced by a stand-in text with a line break: bounded). Verus type stubs, vstd Vec/str specs and one assumed byte-string literal are trusted and listed.',
                 tech='Verus on extracted into_buffer tail and CssBuf + lemma layer; Kani harnesses on CssBuf and get_indent',
                 ref='DESIGN.md §5 C07, §11'),
     'C11': dict(cat='proof',
                 text='Unit::scale_to is checked against the CSS Values ratio table for every ordered pair of the 28 named units (complete, one named assertion per pair), and lifted through UnitSet::scale_to_unit and Numeric::partial_cmp/as_unit (representative unit pairs, probe magnitudes: bounded), and through the numeric arms of + and - of Operator::eval (extracted ranges; 11 representative unit pairs, all left magnitudes up to 1e9: bounded); UnitSet Mul/Div exponent algebra bounded to 2 entries; the single-unit shortcut of UnitSet::scale_to is taken exactly when the target is one unit with exponent 1 (extracted head of the function).',
-                note="Known findings: em/ex/ch, vmin/vmax, %/fr are convertible in rsass (10 named pairs). simplify()'s scale factor and the compound-unit branch of UnitSet::scale_to (powi is over-approximated by CBMC), math.div and Operator::eval as a whole (thorough-tier attempts only) are not covered.",
+                note="The compound-unit branch of UnitSet::scale_to is checked against stand-ins for Div / dimension() / powi (complete body extracted unchanged: which operand is divided by which, dimension mismatch gives None; bounded) — the real Div for &UnitSet, dimension() and f64::powi are not. Known findings: em/ex/ch, vmin/vmax, %/fr are convertible in rsass (10 named pairs). simplify()'s scale factor, math.div and Operator::eval as a whole (thorough-tier attempts only) are not covered.",
                 tech='Kani proof harnesses, exhaustive over unit pairs, oracle = CSS ratio table; K-snippets of Operator::eval arms',
                 ref='DESIGN.md §5 C11, §11'),
     'C12': dict(cat='proof',
@@ -29,7 +29,7 @@ CLAIMS = {
                 ref='DESIGN.md §5 C12'),
     'C13': dict(cat='proof',
                 text='OrderMap::get/len/is_empty/new/get_item/set_item are verified by Verus for maps of ANY size and any key type whose == has a spec: get returns the value of the first entry whose key is == to the argument, None exactly when no key is == (unbounded, on text extracted from /repo each run). insert/get_mut/remove/contains_key and the order-insensitive == are checked by Kani against an association-list view keyed by a non-trivial == for maps of at most 3 entries (bounded), and at the css::Value instantiation (1in / 96px are the same key; a null value is present). The duplicate-key check of map literals is checked on the range extracted from the evaluator (bounded: two-entry literals).',
-                note='map.merge/deep-merge/keys/values and the key-path walk of map.get/has-key (find_value) are not covered. Bounded stand-ins are listed in evidence and not counted as proved.',
+                note='find_value and the closures of map.get / map.has-key (extracted unchanged, value type instantiated at atoms + nested maps behind references) are checked for one-key lookups on one concrete map, including a key whose value is null (bounded); lookups whose further keys come as a rest-argument list exceed 11 minutes (thorough-tier attempts). map.merge/set/remove/deep-merge/keys/values are not covered (do_merge: attempt only). Bounded stand-ins are listed in evidence and not counted as proved.',
                 tech='Verus on extracted OrderMap read side + Kani bounded proof harnesses + K-snippet of the map-literal arm',
                 ref='DESIGN.md §5 C13, §11'),
     'C14': dict(cat='other',
@@ -44,12 +44,12 @@ CLAIMS = {
                 ref='DESIGN.md §5 C17, §11'),
     'C16': dict(cat='proof',
                 text='The flag logic of variable assignment — Scope::set_variable after the `module.name` case, extracted from /repo each run with the scope state replaced by a probe: `!default` assigns only when the variable is undefined or null, `!global` always writes the global, otherwise the write goes to the current scope, and there is exactly one write or none — for all 12 combinations of (existing value, !default, !global): loop-free, complete.',
-                note='Known finding: an assignment without flags never updates a variable of an enclosing local scope (`a { $x: 1; b { $x: 2; } c: $x }` gives c: 1). The scope chain itself (Mutex<BTreeMap>, define_global\'s walk to the root), which blocks get their own scope (style rules, @each/@for, mixin/function parameters, top-level flow control) and module variables are not covered.',
-                tech='Kani proof harness on a K-snippet (range of Scope::set_variable extracted each run)',
+                note='Known finding: an assignment without flags never updates a variable of an enclosing local scope (`a { $x: 1; b { $x: 2; } c: $x }` gives c: 1). Added at the end of session 3 (bounded, stand-in types, see DESIGN 11.8): the @media / at-rule / @for / @while / @each arms of handle_item open exactly one sub scope of the enclosing scope (per iteration for @for), define the loop variable and run the body in it; @each saves and restores only the loop scope\'s OWN entries (complete bodies of store_local_values / restore_local_values / get_local_or_none on a four-slot table). The real scope chain (Mutex<BTreeMap>, Scope::sub, define_global\'s walk to the root), style rules, mixin / function parameters, top-level flow control and module variables are not covered.',
+                tech='Kani proof harnesses on K-snippets (ranges of Scope::set_variable and handle_item, bodies of store/restore_local_values, extracted each run; recording stand-ins for the scope)',
                 ref='DESIGN.md §11'),
     'C36': dict(cat='proof',
                 text='Which loud comments reach the output: the Item::Comment arm of output::transform::handle_item, extracted from /repo each run with the scope format and the destination replaced by probes — expanded style emits every loud comment exactly once, compressed style keeps exactly those starting with `/*!` (loop-free, both styles, both kinds: complete).',
-                note='That silent comments never reach the evaluator (parser), the evaluation of interpolation inside comments and their order relative to other items are not covered. Comment::write is run on one concrete comment in expanded style (bounded); its compressed-style harnesses exceed 15 minutes (str::lines / str::replace): thorough-tier attempts, never counted.',
+                note='That silent comments never reach the evaluator (parser), the evaluation of interpolation inside comments and their order relative to other items are not covered. The module-loading closures of the @use / @forward arms are checked to give the loaded module the output format of the loading scope (recording stand-ins, bounded). Comment::write is run on two concrete comments in expanded style (bounded); its compressed-style harnesses exceed 15 minutes (str::lines / str::replace): thorough-tier attempts, never counted.',
                 tech='Kani proof harnesses on a K-snippet (range of handle_item extracted each run)',
                 ref='DESIGN.md §11'),
     'C18': dict(cat='other',
@@ -59,8 +59,8 @@ CLAIMS = {
                 ref='DESIGN.md §11'),
     'C22': dict(cat='other',
                 text='Opt::collect_pos / collect_neg / map — the fold every no_placeholder uses, including the :not inversion — against the C22 statement for sequences of at most 4 items, CompoundSelector::no_placeholder (a compound with a placeholder is removed, one without is kept unchanged) and Pseudo::no_placeholder on a pseudo-class without selector argument: bounded model checking of the real code. The recursive cases (placeholder in an ancestor, in a selector list, inside :is() / :not() / ::slotted()) exist as harnesses on the real Selector / SelectorSet / Pseudo::no_placeholder but exceed 15 minutes and 5 GB each: thorough-tier attempts, never counted.',
-                note='How Rule::write uses the result (the `*` fallback), the selector parser/printer and the recursive selector structures (attempts only) are not covered. Bounded: nothing counted as proved.',
-                tech='Kani bounded proof harnesses on the real fold and selector structures',
+                note='Added at the end of session 3: the complete bodies of SelectorSet / Selector / CompoundSelector / Pseudo ::no_placeholder, extracted unchanged, each checked against a stand-in for the type one level down that returns every Opt case (removed / matches anything / kept, transformed) — order kept, :not and only :not inverts, every pseudo name with a selector argument counts, pseudo-elements included (bounded: three selectors / two pseudos per level). The induction composing the levels on real nested selectors is not machine-checked; on the real recursive types the harnesses are attempts. How Rule::write uses the result (the `*` fallback) and the selector parser/printer are not covered. Bounded: nothing counted as proved.',
+                tech='Kani bounded proof harnesses on the real fold; the four no_placeholder bodies extracted each run and checked level by level against stand-in callees',
                 ref='DESIGN.md §5 C22, §11'),
     'C26': dict(cat='proof',
                 text='The index arithmetic of string.slice and string.insert — how a 1-based, possibly negative Sass index becomes a code-point offset, and how many code points are taken — on the statement ranges extracted from the closures in sass/functions/string.rs each run: for EVERY i64 index pair and EVERY string length the selected positions are exactly i through j (empty when the range is empty), and insert puts the text before position i clamped to the string (loop-free, complete).',
@@ -74,7 +74,7 @@ CLAIMS = {
                 ref='DESIGN.md §5 C28, §11'),
     'C29': dict(cat='proof',
                 text='The rounding primitives behind math.ceil / floor / round / abs (Number::ceil, floor, round, abs, trunc) against their mathematical specification for ALL finite doubles (complete); the closures of math.ceil / floor / percentage and sass_round keep the unit and apply the primitive (ranges extracted each run, all finite doubles); find_extreme, the fold behind math.min / max, returns one of its arguments chosen after unit conversion (also when a unitless argument ties with one that has a unit) and rejects incompatible units (concrete argument lists: bounded).',
-                note='clamp, pow, sqrt, log, exp, trigonometric functions (over-approximated by CBMC), math.div and the CSS-fallback forms (math/css.rs) are not covered; that pow / sqrt / log / exp reject every unit (also % and fr) exists as harnesses that exceed 15 minutes (error path through core::fmt): thorough-tier attempts, never counted.',
+                note='math.clamp (complete closure) and the unitless argument check of pow / sqrt / log / exp (math::unitless + check::unitless, complete bodies) are discharged for ALL doubles at a stand-in number type (a double with a unit tag; error text dropped): the result is $min / $max / $number as specified, wrong-order bounds included; exactly numbers without unit (% and fr are units) are accepted. On the real Numeric both exist only as thorough-tier attempts (> 15 minutes: BTreeMap in is_compatible, core::fmt on the error path). The VALUES of pow, sqrt, log, exp and the trigonometric functions (over-approximated by CBMC), math.div and the CSS-fallback forms (math/css.rs) are not covered.',
                 tech='Kani proof harnesses over all finite f64 + K-snippets of the math function closures',
                 ref='DESIGN.md §11'),
     'C31': dict(cat='proof',
